@@ -283,15 +283,16 @@ func (f *frameClient) Edge(x *core.TSCtx, from, to *ssa.BasicBlock, s string) st
 	return s
 }
 
-func (f *frameClient) Return(x *core.TSCtx, ret *ssa.Return, s string, err core.ErrK) {
+func (f *frameClient) Return(x *core.TSCtx, ret *ssa.Return, s string, err core.ErrK) string {
 	st := parseF(s)
 	if st.typ == 0 || len(x.Stack) > 0 || f.frag {
-		return
+		return s
 	}
 	if err == core.KNonNil {
-		return // abandonment: the next Start discards the partial frame
+		return s // abandonment: the next Start discards the partial frame
 	}
 	f.fail(x, ret, "return-with-open-frame:"+string(rune(st.typ)), "a message-level function does not return successfully with a frame still open", "returns with an open '"+string(rune(st.typ))+"' frame and an error that may be nil: the message is never sent")
+	return s
 }
 
 func (f *frameClient) token(x *core.TSCtx, site ssa.CallInstruction, st fstate, t tok, arg ssa.Value) fstate {
